@@ -416,6 +416,9 @@ func run(f lib.Flags) {
 		encx.Inflight(c)
 		checkDoc(res, drv, real, c, rng, i)
 	}
+	for i, c := range genForeign(f.Tier, rng.Fork()) {
+		checkForeign(res, drv, real, c, i)
+	}
 	checkPipes(res, drv, genPipe(f.Tier, rng.Fork()))
 	for i, c := range genInterleave(f.Tier, rng.Fork(), f.Search) {
 		checkInterleave(res, c, i)
@@ -1121,6 +1124,131 @@ func checkPipes(res *lib.Result, drv *lib.Drv, cases []pipeCase) {
 	}
 }
 
+// ---- documents of an "independent encoder" that writes the manifest its own way ----
+
+type foreignCase struct {
+	Kind     string      `json:"kind"` // foreign
+	Style    string      `json:"style"`
+	Seed     uint64      `json:"seed"`
+	PlainLen int         `json:"plain_len"`
+	Cipher   int         `json:"cipher_id"`
+	Manifest string      `json:"manifest_line"` // the exact line (filled in by the generator)
+	KeyName  string      `json:"key_name_hex"`  // what the line denotes
+	Mid      encx.Script `json:"doc_script"`
+}
+
+// foreignManifest renders {k, kw, wfk, cph, np} in the given style; returns the line and the key name it denotes.
+func foreignManifest(style string, kw, cph int, wfk, np []byte) (string, string) {
+	b64 := base64.StdEncoding.EncodeToString
+	esc := func(s string) string { return strings.ReplaceAll(s, "/", `\/`) }
+	switch style {
+	case "sorted-keys":
+		return fmt.Sprintf(`{"cph":%d,"k":"mykey","kw":%d,"np":"%s","wfk":"%s"}`, cph, kw, b64(np), b64(wfk)), "mykey"
+	case "slash-escapes":
+		return fmt.Sprintf(`{"k":"key\/version\/1","kw":%d,"wfk":"%s","cph":%d,"np":"%s"}`, kw, esc(b64(wfk)), cph, esc(b64(np))), "key/version/1"
+	case "unescaped-html":
+		return fmt.Sprintf(`{"k":"a&b<c>d","kw":%d,"wfk":"%s","cph":%d,"np":"%s"}`, kw, b64(wfk), cph, b64(np)), "a&b<c>d"
+	case "unicode-escapes":
+		return fmt.Sprintf(`{"k":"\u006b\u0065y\u002F\u00e9\u20AC\u0041","kw":%d,"wfk":"%s","cph":%d,"np":"%s"}`, kw, b64(wfk), cph, b64(np)), "key/é€A"
+	case "raw-utf8":
+		return fmt.Sprintf(`{"k":"clé-ключ-鍵","kw":%d,"wfk":"%s","cph":%d,"np":"%s"}`, kw, b64(wfk), cph, b64(np)), "clé-ключ-鍵"
+	case "whitespace":
+		return fmt.Sprintf("  {\t\"k\" : \"my key\" ,\r \"kw\":  %d ,\"wfk\" :\"%s\"\t, \"cph\" : %d , \"np\": \"%s\" }  ", kw, b64(wfk), cph, b64(np)), "my key"
+	case "unknown-members":
+		return fmt.Sprintf(`{"v":1,"k":"mykey","alg":"x","kw":%d,"wfk":"%s","flag":true,"cph":%d,"none":null,"np":"%s"}`, kw, b64(wfk), cph, b64(np)), "mykey"
+	case "other-escapes":
+		return fmt.Sprintf(`{"np":"%s","k":"tab\tq\"b\\s\u000a\b\f\r","cph":%d,"wfk":"%s","kw":%d}`, b64(np), cph, b64(wfk), kw), "tab\tq\"b\\s\n\b\f\r"
+	default: // everything at once
+		return fmt.Sprintf("{ \"np\" :\"%s\", \"x\":\"\\u00e9\" ,\"cph\":%d,\"k\":\"k\\/\\u0031&\" , \"wfk\":\"%s\",\"kw\" :%d\t}", esc(b64(np)), cph, esc(b64(wfk)), kw), "k/1&"
+	}
+}
+
+var foreignStyles = []string{"sorted-keys", "slash-escapes", "unescaped-html", "unicode-escapes", "raw-utf8", "whitespace", "unknown-members", "other-escapes", "mixed"}
+
+func genForeign(tier string, rng *lib.Rand) []foreignCase {
+	var cases []foreignCase
+	lens := []int{0, 5, 70000}
+	for i, st := range foreignStyles {
+		for j, n := range lens {
+			if tier == "quick" && n == 70000 && i%3 != 0 {
+				continue
+			}
+			cases = append(cases, foreignCase{Kind: "foreign", Style: st, Seed: rng.U64(), PlainLen: n, Cipher: 1 + (i+j)%2,
+				Mid: encx.RandomScript(rng, n+400, 65552)})
+		}
+	}
+	return cases
+}
+
+func checkForeign(res *lib.Result, drv *lib.Drv, real bool, c foreignCase, idx int) {
+	if encx.TooStuck() {
+		return
+	}
+	encx.Inflight(c)
+	rng := lib.NewRand(c.Seed)
+	p := rng.Bytes(c.PlainLen)
+	fk, np := rng.Bytes(32), rng.Bytes(7)
+	line, kn := foreignManifest(c.Style, 1+int(c.Seed%5), c.Cipher, wrapMask(fk), np)
+	c.Manifest, c.KeyName = line, encx.Hex([]byte(kn))
+	doc := encx.IndepEncrypt(fk, np, []byte(line), c.Cipher, p)
+	mid := c.Mid
+	mid.Data = doc
+	var got []byte
+	var derr, dterm error
+	seenKN := ""
+	calls := 0
+	gerr := encx.Guard(60*time.Second, func() error {
+		r, err := enc.Decrypt(mid.Reader(), enc.DecryptOptions{
+			UnwrapKeyFn: func(w []byte, alg, k string, nonce, tag []byte) ([]byte, error) {
+				calls++
+				seenKN = k
+				return wrapMask(w), nil
+			}})
+		if err != nil {
+			derr = err
+			return nil
+		}
+		got, dterm = encx.Drain(r, nil)
+		return nil
+	})
+	key, _ := json.Marshal(c)
+	res.Count(string(key), true)
+	res.Hit("foreign.style=" + c.Style)
+	if idx%5 == 0 {
+		res.Sample(c)
+	}
+	implTerm := encx.Canon(dterm)
+	if derr != nil {
+		implTerm, got = encx.Canon(derr), nil
+	}
+	if gerr != nil {
+		implTerm = encx.Canon(gerr)
+	}
+	// monitor: a document of an independent implementation of the published spec (MAC over the exact manifest
+	// string, README: "Verifiers should not re-encode the message as JSON themselves") must be accepted
+	if implTerm != "ok" || !bytes.Equal(got, p) {
+		res.Violate("interop-foreign-manifest-rejected", fmt.Sprintf("Decrypt rejects/misreads a document whose manifest is valid JSON written in another style (%s): %s, %d of %d bytes; manifest line %q", c.Style, implTerm, len(got), len(p), line), c)
+	} else if calls > 0 && seenKN != kn {
+		res.Violate("interop-foreign-keyname", fmt.Sprintf("UnwrapKeyFn saw key name %q, the manifest says %q", seenKN, kn), c)
+	}
+	if real && drv != nil {
+		ans, err := drv.Ask(fmt.Sprintf("dec fk=%s keyname= %s", encx.Hex(fk), mid.Line("data")))
+		if err != nil {
+			res.Disagree("driver-alive", c, err.Error(), "")
+			return
+		}
+		kv := encx.KV(ans)
+		if kv["unmodelled"] != "" {
+			res.Hit("foreign.lean=unmodelled:" + c.Style)
+			return
+		}
+		res.Traces++
+		if kv["term"] != implTerm || kv["out"] != encx.Hex(got) {
+			res.Disagree("Decrypt(real) = Kit.Enc.decryptImpl on a foreign manifest ("+c.Style+")", c, "term="+kv["term"]+" out="+summarize(kv["out"]), "term="+implTerm+" out="+summarize(encx.Hex(got)))
+		}
+	}
+}
+
 func summarize(h string) string {
 	if len(h) <= 96 {
 		return h
@@ -1254,6 +1382,15 @@ func replay(f lib.Flags, res *lib.Result, drv *lib.Drv) {
 			real = err == nil && strings.Contains(a, "real=1")
 		}
 		checkDoc(res, drv, real, c, lib.NewRand(f.Seed), 0)
+	case "foreign":
+		var c foreignCase
+		json.Unmarshal(rf.Case, &c)
+		real := false
+		if drv != nil {
+			a, err := drv.Ask("caps")
+			real = err == nil && strings.Contains(a, "real=1")
+		}
+		checkForeign(res, drv, real, c, 1)
 	case "pipe":
 		var c pipeCase
 		json.Unmarshal(rf.Case, &c)
